@@ -2,9 +2,9 @@
 
 M  ZonalStats.tla: every raster of the small scopes is an initial state; the sort / stride / slice
    bookkeeping of _stats_numpy runs as a state machine; SliceIsZone, TableOK, RasterOK ... are invariants.
-   The model of the code AS IT IS is checked (a) on zone alphabets without -inf (must hold) and (b) with -inf
-   (TLC must find the counterexample: DESIGN section 8 defect 1); the repaired variant {"strip"} must hold on
-   everything.  Negative twins must be rejected.
+   The positive model is the code of today (variant {"dropneginf"}: -inf zone cells dropped from
+   sorted_indices, fix 7d7d291) on zone alphabets WITH -inf.  The pre-fix variant {} is kept as a negative
+   twin (TLC must refute SliceIsZone as soon as a zone cell is -inf), next to five other twins.
 R  the same complete enumerations through the real zonal.stats (DataFrame and DataArray, rotating nodata /
    zone_ids list / statistic subset / dtypes / shape), _sort_and_stride recorded; ZonalStats_Judge.tla decides.
 T  seeded rasters up to 8x8 (negative / fractional ids, int and float dtypes, value scale 1 and 1/2) and a
@@ -33,43 +33,42 @@ STAT_CHOICES = ([list(s) for k in range(1, 8) for s in itertools.combinations(DE
 
 INV = ["TypeOK", "SortedOK", "BreaksOK", "SliceIsZone", "FilteredIsValid", "RowsOK", "TableOK", "RasterOK"]
 STATS_M = '{"mean", "max", "min", "sum", "var", "count", "range"}'
-CODEVARIANT = "{}"        # the variant of the transcription describing /repo today ({"strip"} once defect 1 is fixed)
+TODAY = '{"dropneginf"}'  # the variant of the transcription describing /repo today (after fix 7d7d291)
+CODEVARIANT = TODAY
 
 
 # ------------------------------------------------------------------------------------------- M
-def mc(ctx, name, rasters, sels, variant="{}", mut="none", ties="stable", expect="ok", inv=None, stats=STATS_M):
+def mc(ctx, name, rasters, sels, variant=TODAY, mut="none", ties="stable", expect="ok", inv=None, stats=STATS_M):
     cfg = dict(spec="Spec", invariants=inv or INV, constants=dict(
         Rasters=R(rasters), Selections=R(sels), STATS=R(stats), TIES=ties, VARIANT=R(variant), MUT=mut))
     return U.checked_mc(ctx, "ZonalStats", cfg, name, expect)
 
 
 def model_checks(ctx):
-    z5, z6, v5 = U.tla_set(Z5), U.tla_set(Z6), U.tla_set(V5)
+    z5n, z6, v5 = "{NINF, 0-2, 1, NAN, PINF}", U.tla_set(Z6), U.tla_set(V5)
     s12 = "Sels({NONE, 0, 2}, {<<1>>, <<4, 0-2>>, <<0-2, 14, 1>>})"
     s6 = "Sels({NONE, 2}, {<<4, 0-2>>, <<14, 1>>})"
     lists = "Sels({NONE, 2}, ListsOver({0-2, 1, 4, 14}))"
     six = "{<<0-1, 0, 2, NAN, PINF, 2>>}"
     thorough = ctx.tier == "thorough"
-    # (a) the code as it is, zone alphabets without -inf: every invariant holds
-    mc(ctx, "asis_n3", "AllRasters(3, %s, %s)" % (z5, v5), s12)
-    mc(ctx, "asis_6cells", "FixedValueRasters(6, %s, %s)" % (z5, six), "Sels({2}, {<<4, 0-2>>})")
-    mc(ctx, "asis_ties_any", "FixedValueRasters(4, {1, 4, NAN}, {<<0, 2, NAN, 0-1>>, <<2, 2, 0, PINF>>})",
+    # the code of today, zone alphabets with -inf, NaN, +inf: every invariant holds
+    mc(ctx, "today_n3", "AllRasters(3, %s, %s)" % (z6, v5), s6)
+    mc(ctx, "today_6cells", "FixedValueRasters(6, %s, %s)" % (z5n, six), "Sels({2}, {<<1, 0-2>>})")
+    mc(ctx, "today_ties_any", "FixedValueRasters(4, {NINF, 1, 4, NAN}, {<<0, 2, NAN, 0-1>>, <<2, 2, 0, PINF>>})",
        "Sels({NONE, 2}, {<<4>>})", ties="any")
-    # (b) the code as it is, -inf among the zone cells: TLC finds the counterexample (defect 1 of DESIGN section 8)
-    r = mc(ctx, "asis_neginf_n2", "AllRasters(2, %s, %s)" % (z6, v5), s6, expect="violation")
-    ctx.note("M: on the model of the code as it is TLC refutes %s as soon as a zone cell is -inf "
-             "(values_by_zones keeps the -inf cells, zone_breaks do not count them)" % r.invariant_violated)
-    # (c) the repaired variant: holds on everything, every zone_ids list
-    mc(ctx, "strip_lists_n2", "AllRasters(2, %s, {0, 2, NAN})" % z6, lists, variant='{"strip"}')
+    mc(ctx, "today_lists_n2", "AllRasters(2, %s, {0, 2, NAN})" % z6, lists)     # every zone_ids list
     if thorough:
-        mc(ctx, "asis_n4", "AllRasters(4, %s, {0, 2, NAN})" % z5, s6)
-        mc(ctx, "asis_multiset5", "MultisetRasters(5, %s, <<0, 2, NAN, PINF>>, <<4, 1, 5, 2, 3>>)" % U.tla_seq(Z5), s6)
-        mc(ctx, "strip_n3", "AllRasters(3, %s, %s)" % (z6, v5), s12, variant='{"strip"}')
-        mc(ctx, "strip_lists_n3", "AllRasters(3, %s, {0, 2, NAN})" % z6, lists, variant='{"strip"}')
-        mc(ctx, "strip_6cells", "FixedValueRasters(6, %s, %s)" % (z6, six), "Sels({NONE, 2}, {<<4, 0-2>>})",
-           variant='{"strip"}')
-        mc(ctx, "asis_multiset6", "MultisetRasters(6, <<0-2, 1, 4, NAN>>, <<0, 2, NAN>>, <<4, 1, 5, 2, 6, 3>>)", s12)
-    # negative twins (vacuity guards)
+        mc(ctx, "today_n3_s12", "AllRasters(3, %s, %s)" % (z6, v5), s12)
+        mc(ctx, "today_n4", "AllRasters(4, %s, {0, 2, NAN})" % z6, s6)
+        mc(ctx, "today_multiset5", "MultisetRasters(5, %s, <<0, 2, NAN>>, <<4, 1, 5, 2, 3>>)" % U.tla_seq(Z6), s6)
+        mc(ctx, "today_lists_n3", "AllRasters(3, %s, {0, 2, NAN})" % z6, lists)
+        mc(ctx, "today_6cells_all", "FixedValueRasters(6, %s, %s)" % (z6, six), "Sels({NONE, 2}, {<<4, 0-2>>})")
+        mc(ctx, "today_multiset6", "MultisetRasters(6, <<NINF, 0-2, 1, NAN>>, <<0, 2, NAN>>, <<4, 1, 5, 2, 6, 3>>)", s12)
+        mc(ctx, "strip_lists_n2", "AllRasters(2, %s, {0, 2, NAN})" % z6, lists, variant='{"strip"}')  # alternative repair
+    # negative twins.  (1) the code before fix 7d7d291: TLC must find the -inf counterexample (DESIGN section 8 #1)
+    r = mc(ctx, "prefix_neginf_n2", "AllRasters(2, %s, %s)" % (z6, v5), s6, variant="{}", expect="violation")
+    ctx.note("M: the pre-fix variant {} is refuted by TLC (%s) as soon as a zone cell is -inf" % r.invariant_violated)
+    # (2) vacuity guards
     small = "AllRasters(3, {0-2, 1, NAN}, {0, 2, NAN, PINF})"
     for mut in ("lastcell", "startsel", "noinf", "emptyzero", "paintreq"):
         mc(ctx, "neg_" + mut, small, s6, mut=mut, expect="violation")
@@ -216,7 +215,7 @@ def handle(ctx, fails, cases, verdicts, kind):
                              % (dr, case["z"], case["v"], case["ids"]))
 
 
-def run_batch(ctx, fails, jobs, name, kind, size=60000):
+def run_batch(ctx, fails, jobs, name, kind, size=80000):
     done = 0
     for part in U.chunks(jobs, size):
         cases = core.run_jobs("zonal_worker", part, nproc=U.nproc_for(part))
@@ -286,16 +285,15 @@ def run(ctx):
     # ---- R: the complete enumerations through the real code
     jobs = enum_jobs(ctx.seed, 3, Z6, V5, both=True, tag="all_n3")
     scope_check(ctx, jobs, 3, Z6, V5, "scope_n3")
-    run_batch(ctx, fails, jobs, "replay_n3", "R")
     six = [[-1, 0, 2, NAN, PINF, 2], [2, 2, 0, -1, 0, NAN], [0, 1, 2, -1, -1, PINF]]
-    jobs = enum_jobs(ctx.seed + 1, 6, Z6 if thorough else [NINF, -2, 1, NAN], None, both=False, tag="zones_6cells",
-                     vfixed=six if thorough else six[:2])
-    run_batch(ctx, fails, jobs, "replay_6cells", "R")
+    jobs += enum_jobs(ctx.seed + 1, 6, Z6 if thorough else [NINF, -2, 1, NAN], None, both=False, tag="zones_6cells",
+                      vfixed=six if thorough else six[:2])
+    # ---- T: seeded larger rasters (same worker processes / judge JVMs as R: start-up dominates the quick tier)
+    jobs += random_jobs(ctx.seed, ctx.pick(1500, 40000))
+    run_batch(ctx, fails, jobs, "replay_and_random", "R/T")
     if thorough:
-        jobs = enum_jobs(ctx.seed + 2, 4, Z6, V5, both=False, tag="all_n4")
-        run_batch(ctx, fails, jobs, "replay_n4", "R")
-    # ---- T: seeded larger rasters, and a single-chunk dask sample
-    run_batch(ctx, fails, random_jobs(ctx.seed, ctx.pick(1500, 40000)), "random", "T")
+        run_batch(ctx, fails, enum_jobs(ctx.seed + 2, 4, Z6, V5, both=False, tag="all_n4"), "replay_n4", "R")
+    # ---- a single-chunk dask sample
     run_batch(ctx, fails, random_jobs(ctx.seed, ctx.pick(40, 600), backend="dask", tag="dask"), "dask", "T-dask")
     fails.report()
 
@@ -304,7 +302,8 @@ META = {
     "technique": "TLA+ state machine of the sort-and-stride bookkeeping of zonal.stats checked exhaustively by TLC "
                  "against the set-based definition; the same enumerations and seeded larger rasters run through the "
                  "real function, every observed table / raster judged by TLC",
-    "level_text": "ZonalStats.tla models np.argsort (-inf first, NaN last), the stripping of non-finite zones, the "
+    "level_text": "ZonalStats.tla models np.argsort (-inf first, NaN last), the dropping of the -inf cells and the stripping of "
+                  "the other non-finite zones, the "
                   "_strides cursor and the values_by_zones[start:end] slices of _calc_stats step by step; TLC explores "
                   "every raster of the small scopes (all rasters of <= 3-4 cells over 6 zone codes x 5 value codes, every "
                   "zone layout of 6 cells, every multiset of 5-6 cells) with every nodata / zone_ids choice of the "
